@@ -66,41 +66,73 @@ def check(ctx: Ctx):
     ctx.check(okd, "R-ORDER", "parameter items are sorted by their name (the whole name: an injective key)", pc, src,
               "the order of the combinations (hence the job numbering) must not depend on the order in which the parameters were written: a key under which two names tie "
               "(case folding, a prefix, a length) leaves their relative order to the writing order")
-    vs = [s for s in top if isinstance(s, ast.Assign) and norm(s.targets[0]) == values and isinstance(s.value, ast.ListComp) and isinstance(s.value.elt, ast.IfExp)
-          and isinstance(s.value.elt.body, ast.Call) and call_name(s.value.elt.body) == "sorted"]
-    okv = len(vs) == 1
-    if okv:
-        e = vs[0].value.elt
-        v_ = norm(vs[0].value.generators[0].target)
-        okv = norm(e.test) == f"isinstance({v_}, list)" and norm(e.body) == f"sorted({v_})" and norm(e.orelse) == v_
-    ctx.check(okv, "R-ORDER", "every value list is sorted (whole values, ascending)", pc, vs[0] if vs else pc.node, "the values of one parameter are enumerated in an order that does not depend on the writing order")
-    rebinds = [s for s in top if isinstance(s, ast.Assign) and norm(s.targets[0]) in (names, values) and s is not un[0]]
-    for s in rebinds:
-        v = s.value
-        okr = norm(s.targets[0]) == values and isinstance(v, ast.ListComp) and len(v.generators) == 1 and norm(v.generators[0].iter) == values and not v.generators[0].ifs
-        ctx.check(okr, "R-ALIGN", f"`{norm(s.targets[0])}` is only rebound to an element-wise map of itself (same length, same positions)", pc, s,
-                  "filtering, sorting or re-ordering the value lists (or the names) after the unzip breaks the pairing used by dict(zip(names, combination))")
+    # ---- the value lists flow from the unzip to the product through element-wise maps only (under one name rebound several times, under
+    # ---- several names, or nested): one map sorts each list, a later one expands dict-valued parameters
+    defs = {}
+    for s_ in top:
+        if isinstance(s_, ast.Assign) and len(s_.targets) == 1 and isinstance(s_.targets[0], ast.Name):
+            defs.setdefault(s_.targets[0].id, []).append(s_)
     combos = [c for c in ast.walk(pc.node) if isinstance(c, ast.ListComp) and any(isinstance(x, ast.Call) and norm(x.func) == "itertools.product" for x in ast.walk(c))]
-    ok = len(combos) == 1
-    if ok:
+    okc = len(combos) == 1
+    prod_arg = None
+    if okc:
         g = combos[0].generators
-        ok = len(g) == 1 and isinstance(g[0].iter, ast.Call) and [norm(a) for a in g[0].iter.args] == [f"*{values}"] and not g[0].ifs and norm(combos[0].elt) == f"dict(zip({names}, {norm(g[0].target)}))"
-    ctx.check(ok, "R-ALIGN", "a combination = dict(zip(names, one element of product(*value lists))), for every element of the product", pc, combos[0] if combos else pc.node,
+        okc = len(g) == 1 and isinstance(g[0].iter, ast.Call) and len(g[0].iter.args) == 1 and isinstance(g[0].iter.args[0], ast.Starred) and not g[0].ifs \
+            and norm(combos[0].elt) == f"dict(zip({names}, {norm(g[0].target)}))"
+        prod_arg = g[0].iter.args[0].value if okc else None
+    loop_form = None
+    if not combos:
+        # the same enumeration written as an accumulation loop
+        lf = [l for l in top if isinstance(l, ast.For) and isinstance(l.iter, ast.Call) and norm(l.iter.func) == "itertools.product" and len(l.iter.args) == 1 and isinstance(l.iter.args[0], ast.Starred)]
+        if len(lf) == 1 and len(lf[0].body) == 1 and isinstance(lf[0].body[0], ast.Expr) and isinstance(lf[0].body[0].value, ast.Call) and isinstance(lf[0].body[0].value.func, ast.Attribute) \
+                and lf[0].body[0].value.func.attr == "append" and [norm(a) for a in lf[0].body[0].value.args] == [f"dict(zip({names}, {norm(lf[0].target)}))"] and not lf[0].orelse:
+            acc = norm(lf[0].body[0].value.func.value)
+            init = [d for d in defs.get(acc, []) if isinstance(d.value, ast.List) and not d.value.elts and d.lineno < lf[0].lineno]
+            if len(init) == 1 and len(defs.get(acc, [])) == 1:
+                loop_form = (lf[0], acc)
+                okc = True
+                prod_arg = lf[0].iter.args[0].value
+    ctx.check(okc, "R-ALIGN", "a combination = dict(zip(names, one element of product(*value lists))), for every element of the product", pc, combos[0] if combos else (loop_form[0] if loop_form else pc.node),
               "every combination of one value per parameter must be listed")
+    # names are never rebound
+    nb = [s_ for s_ in defs.get(names, [])]
+    ctx.check(not nb, "R-ALIGN", "the tuple of names is not rebound after the unzip", pc, nb[0] if nb else un[0], "re-ordering the names after the unzip breaks the pairing used by dict(zip(names, combination))")
+    steps = []   # (elt, loop variable, node) from the product back to the unzip
+
+    def walk_chain(e, use_site_line, depth=0):
+        if depth > 8:
+            return False
+        if isinstance(e, ast.Name):
+            if e.id == values:
+                cand = [d for d in defs.get(values, []) if d.lineno < use_site_line]
+                if not cand:
+                    return True   # the unzip itself
+                d = cand[-1]
+                return walk_chain(d.value, d.lineno, depth + 1)
+            cand = [d for d in defs.get(e.id, []) if d.lineno < use_site_line]
+            if len(cand) < 1:
+                return False
+            return walk_chain(cand[-1].value, cand[-1].lineno, depth + 1)
+        if isinstance(e, ast.ListComp) and len(e.generators) == 1 and not e.generators[0].ifs and isinstance(e.generators[0].target, ast.Name):
+            steps.append((e.elt, e.generators[0].target.id, e))
+            return walk_chain(e.generators[0].iter, use_site_line, depth + 1)
+        return False
+    okchain = prod_arg is not None and walk_chain(prod_arg, getattr(combos[0], "lineno", 10 ** 9) if combos else (loop_form[0].lineno if loop_form else 10 ** 9))
+    ctx.check(bool(okchain), "R-ALIGN", "the value lists reach the product only through element-wise maps of the unzipped tuple (same length, same positions)", pc, prod_arg if prod_arg is not None else pc.node,
+              "filtering, sorting or re-ordering the value lists (or the names) after the unzip breaks the pairing used by dict(zip(names, combination))")
     r = [x for x in walk_no_nested(pc.node) if isinstance(x, ast.Return)]
-    ctx.check(len(r) == 1 and isinstance(r[0].value, ast.Name) and any(isinstance(s, ast.Assign) and norm(s.targets[0]) == r[0].value.id and s.value is combos[0] for s in top) if combos else False,
-              "R-ALIGN", "the list of combinations is returned whole", pc, r[0] if r else pc.node, "")
-    # nested
-    rec = [s for s in rebinds if any(isinstance(c, ast.Call) and call_name(c) == "parameters_configuration" for c in ast.walk(s))]
-    ok = len(rec) == 1
-    if ok:
-        e = rec[0].value.elt
-        v = norm(rec[0].value.generators[0].target)
-        ok = isinstance(e, ast.IfExp) and norm(e.test) == f"isinstance({v}, dict)" and norm(e.body) == f"parameters_configuration({v})" and norm(e.orelse) == v
-        # the recursion comes after the per-list sort (a dict cannot be sorted) and before the product
-        ok = ok and top.index(rec[0]) < top.index(next(s for s in top if any(c is combos[0] for c in ast.walk(s))))
-    ctx.check(ok, "R-NESTED", "dict-valued parameters are replaced by the list of their own combinations; other value lists are kept unchanged", pc, rec[0] if rec else pc.node,
-              "nested sub-parameters must be expanded into one choice per sub-combination")
+    okr = len(r) == 1 and ((combos and (r[0].value is combos[0] or (isinstance(r[0].value, ast.Name) and any(d.value is combos[0] for d in defs.get(r[0].value.id, []))))) or
+                           (loop_form and norm(r[0].value) == loop_form[1]))
+    ctx.check(bool(okr), "R-ALIGN", "the list of combinations is returned whole", pc, r[0] if r else pc.node, "")
+    # steps are listed from the product backwards: [expansion, sort] in the reference
+    sort_steps = [(e, v) for e, v, _ in steps if isinstance(e, ast.IfExp) and norm(e.test) == f"isinstance({v}, list)" and norm(e.body) == f"sorted({v})" and norm(e.orelse) == v]
+    exp_steps = [(e, v) for e, v, _ in steps if isinstance(e, ast.IfExp) and norm(e.test) == f"isinstance({v}, dict)" and norm(e.body) == f"parameters_configuration({v})" and norm(e.orelse) == v]
+    ctx.check(len(sort_steps) == 1, "R-ORDER", "every value list is sorted (whole values, ascending)", pc, steps[-1][2] if steps else pc.node,
+              "the values of one parameter are enumerated in an order that does not depend on the writing order")
+    idx = {id(e): i for i, (e, v, _) in enumerate(steps)}
+    okn = len(exp_steps) == 1 and len(steps) == 2 and (not sort_steps or idx[id(exp_steps[0][0])] < idx[id(sort_steps[0][0])])
+    ctx.check(okn, "R-NESTED", "dict-valued parameters are replaced by the list of their own combinations; other value lists are kept unchanged", pc, steps[0][2] if steps else pc.node,
+              "nested sub-parameters must be expanded into one choice per sub-combination (after the per-list sort: a dict cannot be sorted)")
     # regularize
     rg = repo.func(B, "regularize_parameters")
     ctx.touch(rg)
